@@ -52,7 +52,7 @@ def register_builders(reg, S):
         # C11: the well-formed tempo map every query and every constructor assumes is ESTABLISHED here
         # (seeded C11e: a builder that accepts out-of-order tempo lines breaks C11's "raises ValueError or
         # returns only timestamps equal to the un-hinted query" although the query itself is untouched)
-        props=["C01", "C08", "C12", "C15", "C11"]))
+        props=["C01", "C08", "C12", "C15", "C11", "C03", "C16"]))
 
     # ------------------------------------------------------------------ anchors
     reg.add(Contract(
